@@ -80,6 +80,9 @@ Theorem cycles_strictly_decreasing_where_finite wc L1 L2 : valid wc -> 0 < L1 ->
   exists N1 N2, basquin_cycles_of wc L1 = Fin N1 /\ basquin_cycles_of wc L2 = Fin N2 /\ N2 < N1.
 Proof. exact (C08.basquin_cycles_strictly_decreasing wc L1 L2). Qed.
 
+Theorem load_antitone_in_cycles wc N1 N2 : valid wc -> 0 < N1 -> N1 <= N2 -> basquin_load_of wc N2 <= basquin_load_of wc N1.
+Proof. exact (C08.basquin_load_antitone wc N1 N2). Qed.
+
 Theorem continuous_at_knee wc k2 : valid wc -> k_2 wc = Fin k2 ->
   continuous (fun L => fin_or0 (basquin_cycles_of wc L)) (SD wc) /\ fin_or0 (basquin_cycles_of wc (SD wc)) = ND wc.
 Proof. exact (C08.continuous_at_knee wc k2). Qed.
@@ -163,6 +166,7 @@ Print Assumptions valid_example.
 Print Assumptions basquin_cycles_load.
 Print Assumptions basquin_load_cycles.
 Print Assumptions cycles_strictly_decreasing_where_finite.
+Print Assumptions load_antitone_in_cycles.
 Print Assumptions continuous_at_knee.
 Print Assumptions knee_point.
 Print Assumptions slope_k1_above.
